@@ -10,15 +10,17 @@ CHECK = {
              "primitives (OriginalID) and MeshGL64/MeshGL imports with 0..6 property channels (global affine field, continuous "
              "per-vertex random field, or per-corner random field with a seam on every edge), face IDs absent / per triangle / "
              "arbitrary pairs, reserved or library-assigned IDs, baked under a generic (possibly mirroring) transform. Every value "
-             "of every step is observed. distinct_nontrivial = number of distinct (producing operation, number of non-empty runs "
+             "of every step is observed (values downstream of a Simplify/SetTolerance are outside the statement's program class: "
+             "for them only the run table, the instance transforms and 'lies on the transformed source surface' are checked). "
+             "distinct_nontrivial = number of distinct (producing operation, number of non-empty runs "
              "capped at 6, back-side run present, mirrored run present, repeated instance present, properties present, log16 "
              "triangle-count bucket) signatures among non-empty NoError values on which every triangle was checked."),
     "min_nontrivial": {"quick": 60, "thorough": 120},
     "exhaustive": {"quick": False, "thorough": False},
     "stages": [
         {"name": "programs", "variant": "asan", "harness": "c07_provenance.cpp",
-         "cases": {"quick": 640, "thorough": 12000},
-         "params": {"steps": {"quick": 10, "thorough": 16}, "maxTris": {"quick": 1500, "thorough": 5000}},
+         "cases": {"quick": 640, "thorough": 8000},
+         "params": {"steps": {"quick": 10, "thorough": 14}, "maxTris": {"quick": 1500, "thorough": 4000}},
          "case_timeout": 300},
     ],
     "assumptions": [
@@ -27,6 +29,8 @@ CHECK = {
         "distance bound B = max(exported tolerance, largest Simplify/SetTolerance argument applied upstream mapped through later transforms by their Frobenius norm) + 64 ulp of the coordinate scale; property bound = (largest per-triangle or fitted gradient on the face, mapped to world space) * B + 2 * fit residual + 1e-12 * max|value|",
         "a face's property field counts as affine when a least-squares affine fit over all its triangle corners has residual <= 1e-6 of the largest value (always true for a single-triangle face); other faces are counted and skipped",
         "the expected instance list (original ID, composed transform) is composed by the harness from the matrices it passed to the API; a run must match a distinct expected instance within 1e-9 relative + B on the source's bounding-box corners",
+        "witness keys: a distance or property error between 1x and 4x its bound is keyed ':marginal(...)' (reported, but a different key from gross errors); gross property/geometry errors downstream of a Boolean whose operands were placed a few epsilons apart carry ':few-epsilon-ancestry:'; every witness downstream of a Refine whose operand exported a tangent array (nothing in this workload creates tangents) carries the prefix 'phantom-tangents:'",
+        "orientation passes if ANY source triangle of the face that the output triangle lies on (all three vertices within B) has the required orientation: a coplanar face may hold coincident triangles of both orientations",
         "g++ -fsanitize=address,undefined build of /repo's working tree, -DNDEBUG, MANIFOLD_PAR=-1",
     ],
 }
